@@ -14,7 +14,7 @@ from . import exprs
 
 # a register name is literal text and may contain a dot; 'IX.h' continues 'ix' in another letter case; 'ZERO' is spelled like a
 # keyword but in another case
-REGISTERS = ['a', 'x', 'y', 'hl', 'sp', 'ix', 'mar', 'r1', 'ab', 'a1', 'IX.h', 'r1.w', 'ZERO']
+REGISTERS = ['a', 'x', 'y', 'hl', 'sp', 'ix', 'mar', 'r1', 'ab', 'a1', 'IX.h', 'r1.w', 'ZERO', '_t']
 MNEMONICS = ['ld', 'ldx', 'ld.b', 'mov', 'movw', 'st', 'jmp', 'jr', 'tst', 'inc', 'sel', 'br', 'add', 'addc',
              'push', 'op.w']
 MACROS = ['mpush', 'swap', 'ldm', 'clr2']
